@@ -17,8 +17,12 @@ def parse_sdkconfig(text, info):
     out = []
     marked = False
     in_dep = False
-    for raw in text.split("\n"):
+    raws = text.split("\n")
+    for k_, raw in enumerate(raws):
         line = raw.rstrip()
+        # the title of a menu / comment is written as three lines "#", "# <title>", "#": never a marker
+        if 0 < k_ < len(raws) - 1 and raws[k_ - 1].rstrip() == "#" and raws[k_ + 1].rstrip() == "#":
+            continue
         if line.strip() == MARK:
             marked = True
             continue
